@@ -17,8 +17,9 @@ TRUSTED = [
     "result is exactly the listed symptom; anything else inside a known class is a VIOLATION",
 ]
 ASSUMPTIONS = [
-    "parserinfo._year is read back from the implementation for the expectations; that it IS the current year (and _century its "
-    "century) is checked once per run on a freshly built parserinfo",
+    "the two-digit-year pivot of the expectations and of the model comes from the process clock (_parser_lib.model_pivot), not "
+    "from parserinfo._year; that a freshly built parserinfo and DEFAULTPARSER.info carry the current year and its century is "
+    "checked on every run (here and by pivot_oracle in C14/C15)",
     "a year, an AM/PM marker or an `s` unit is separated from a following offset / Z by a space (part of the templates)",
     "a zero-offset rendering must come back with utcoffset 0 under EVERY process zone, also where the process zone is merely "
     "CALLED UTC / GMT but is elsewhere (TZ=UTC+3, GMT-2, XXX0UTC,M3.5.0,M10.5.0): the repaired D-C02-local-zone-named-utc, kept as a "
@@ -63,7 +64,7 @@ def call_of(t, d, off):
 def correspondence(ctx):
     basecorr.run(ctx)
     from dateutil.parser import _parser
-    year_now = _parser.DEFAULTPARSER.info._year
+    year_now = L.model_pivot(_parser.DEFAULTPARSER.info)[0]      # from the process clock (review3b F8)
     rng = ctx.subrng("corr")
     prev = L.set_tz("UTC")
     try:
@@ -328,7 +329,7 @@ def oracle(ctx):
     import time as _time
     from dateutil import parser as P
     from dateutil.parser import _parser
-    year_now = _parser.DEFAULTPARSER.info._year
+    year_now = L.model_pivot(_parser.DEFAULTPARSER.info)[0]      # from the process clock, not from the object (review3b F8)
     # ---- "of the current year": a freshly built parserinfo really uses this year (New-Year race tolerated) and the century
     #      that belongs to it; DEFAULTPARSER's may be older only by a process that lived through New Year
     y0 = datetime.datetime.now().year
